@@ -315,6 +315,86 @@ from .facts import walk as _walk  # noqa: E402
 from .origin import Body as _Body  # noqa: E402
 
 
+def _rel_eval(body, e, env, rel):
+    """Three-valued evaluation of a boolean HIR expression about indices versus a length.
+    env: local id -> ("sym", subject) | ("len",) | ("closure", node);  rel: subject -> "lt" | "eq" | "gt" (index relative to the length).
+    Returns True / False / None (unknown)."""
+    e = _hq.peel(e)
+    k = e.get("k")
+    def val(x):
+        x = _hq.peel(x)
+        if x.get("k") == "Path" and x.get("res") == "local":
+            if x["lid"] in env:
+                return env[x["lid"]]
+            for d in body.defs.get(x["lid"], []):
+                if isinstance(d, dict):
+                    if d.get("k") == "Param" and (d.get("ty") or "") == "usize":
+                        return ("sym", "root")
+                    if d.get("k") == "Closure":
+                        return ("closure", d)
+                    v = val(d)
+                    if v:
+                        return v
+            return None
+        if x.get("k") == "MethodCall" and x.get("m") == "len":
+            return ("len",)
+        if x.get("k") == "MethodCall" and x.get("m") in ("get_left", "get_right"):
+            return ("sym", x["m"])
+        if x.get("k") == "Closure":
+            return ("closure", x)
+        return None
+    if k == "Lit" and (e.get("lit") or {}).get("t") == "bool":
+        return bool(e["lit"]["v"])
+    if k == "Unary" and e.get("op") == "!":
+        v = _rel_eval(body, e["e"], env, rel)
+        return None if v is None else (not v)
+    if k == "Binary" and e.get("op") in ("||", "&&"):
+        a, b = _rel_eval(body, e["l"], env, rel), _rel_eval(body, e["r"], env, rel)
+        if e["op"] == "||":
+            return True if (a is True or b is True) else (False if (a is False and b is False) else None)
+        return False if (a is False or b is False) else (True if (a is True and b is True) else None)
+    if k == "Binary" and e.get("op") in ("<", "<=", ">", ">=", "==", "!="):
+        l, r = val(e["l"]), val(e["r"])
+        op = e["op"]
+        if l and r and l[0] == "len" and r[0] == "sym":
+            l, r = r, l
+            op = {"<": ">", "<=": ">=", ">": "<", ">=": "<=", "==": "==", "!=": "!="}[op]
+        if l and r and l[0] == "sym" and r[0] == "len":
+            o = rel.get(l[1], "lt")
+            return {"<": o == "lt", "<=": o in ("lt", "eq"), ">": o == "gt", ">=": o in ("gt", "eq"), "==": o == "eq", "!=": o != "eq"}[op]
+        return None
+    if k == "Call":
+        fv = val(e["f"]) if e["f"].get("k") == "Path" and e["f"].get("res") == "local" else None
+        if fv and fv[0] == "closure":
+            c = fv[1]
+            env2 = dict(env)
+            for prm, a in zip(c.get("params") or [], e.get("args") or []):
+                if prm.get("k") == "Binding":
+                    env2[prm["lid"]] = val(a)
+            return _rel_eval(body, c["body"], env2, rel)
+        return None
+    if k == "MethodCall":
+        m = e.get("m")
+        if m == "any" and e.get("args"):
+            c = val(e["args"][0])
+            if c and c[0] == "closure":
+                return _rel_eval(body, c[1]["body"], env, rel)      # existential: the witness element
+            return None
+        if m in ("map_or", "is_some_and", "is_none_or") and e.get("args"):
+            recv = val(e["recv"])
+            c = val(e["args"][-1])
+            if recv and recv[0] == "sym" and c and c[0] == "closure":
+                env2 = dict(env)
+                ps = c[1].get("params") or []
+                if ps and ps[0].get("k") == "Binding":
+                    env2[ps[0]["lid"]] = recv
+                return _rel_eval(body, c[1]["body"], env2, rel)    # the link is present (Some)
+            return None
+    if k == "Block" and e["b"].get("expr") and not e["b"]["stmts"]:
+        return _rel_eval(body, e["b"]["expr"], env, rel)
+    return None
+
+
 def guard_build_links_validated(ctx, f):
     """build() rejects a tree whose root or child links leave the node list before any handler runs."""
     F = ctx.F
@@ -350,6 +430,13 @@ def guard_build_links_validated(ctx, f):
                 links.add(m["m"])
         errs = any((_hq.callee(x) or "").endswith("::Err") for x in _walk(n["then"]) if x.get("k") == "Call")
         if root_cmp and links == {"get_left", "get_right"} and errs:
+            # the rejecting condition must be true as soon as any one of root / left / right equals or exceeds the node count
+            for subject in ("root", "get_left", "get_right"):
+                for o in ("eq", "gt"):
+                    v = _rel_eval(body, cond, {}, {subject: o})
+                    if v is False:
+                        return False, "%s does not reject a tree whose %s link is %s the node count (%s): the handlers index nodes[] with it" % (
+                            b.get("name"), {"root": "root", "get_left": "left", "get_right": "right"}[subject], {"eq": "equal to", "gt": "greater than"}[o], loc(n))
             return True, "%s checks the root index and every get_left()/get_right() against the node count and returns Err (%s)" % (b.get("name"), loc(n))
     return False, "build() no longer validates parse_root and the left/right links against parse_tree.len() before walking the tree"
 
@@ -445,7 +532,32 @@ def guard_range_end_clamped(ctx, f):
     return False, "range slice at %s: the end is not clamped to the start (`.max(start)`), reversed extents would panic" % ", ".join(why)
 
 
+def guard_charlist_header_counts_chars(ctx, f):
+    """Every CharList(n) header the data crate writes (constructor or in-place) receives a character count, never a UTF-8 byte length
+    (the D1 origin analysis, restricted to the header sinks): the n cells after a header are then the n Char cells written with it."""
+    from . import rules_units
+    memo = ctx.memo.setdefault("guard-charlist-header", {})
+    if "v" not in memo:
+        bad, n = [], 0
+        for g in ctx.F.fns.values():
+            if g["crate"] != "garnish_lang_simple_data":
+                continue
+            for inst, where, msg, isbad in rules_units.d1_sites(ctx.F, g):
+                if inst.startswith("CharList-header"):
+                    n += 1
+                    if isbad:
+                        bad.append("%s (%s)" % (where, msg))
+        memo["v"] = (bad, n)
+    bad, n = memo["v"]
+    if bad:
+        return False, "a CharList header receives a byte length: " + "; ".join(bad[:2])
+    if n < 5:
+        return False, "only %d CharList header writes found (expected >= 5)" % n
+    return True, "all %d CharList header writes receive character counts" % n
+
+
 GUARDS = {
+    "charlist-header-counts-chars": guard_charlist_header_counts_chars,
     "build-links-validated": guard_build_links_validated,
     "lexer-whitespace-ascii": guard_lexer_whitespace_ascii,
     "range-end-clamped": guard_range_end_clamped,
